@@ -80,6 +80,7 @@ TRANSLATORS = {
     "GenRviStep": "gen_rvistep",
     "GenPiEval": "gen_pieval",
     "GenDeMoor": "gen_demoor",
+    "GenMirjalili": "gen_mirjalili",
 }
 
 
